@@ -37,6 +37,8 @@ type Pipe struct {
 	alwaysFail  error
 	closeCount  int
 	closeErr    error // returned by Close (FailClose); the pipe closes all the same
+	closeDelay  time.Duration // Close stays inside the device for this long (SetCloseDelay)
+	closeDone   int           // Close calls that have returned
 	closed      bool
 	readsIssued int
 	active      int           // Write calls currently inside the transport
@@ -188,9 +190,30 @@ func (p *Pipe) Close() error {
 	p.closeCount++
 	p.closed = true
 	err := p.closeErr
+	d := p.closeDelay
 	p.mu.Unlock()
 	p.cond.Broadcast()
+	if d > 0 {
+		time.Sleep(d) // e.g. a serial port draining its output queue
+	}
+	p.mu.Lock()
+	p.closeDone++
+	p.mu.Unlock()
 	return err
+}
+
+// SetCloseDelay makes Close take d to return; the handle counts as in use until then (Released).
+func (p *Pipe) SetCloseDelay(d time.Duration) {
+	p.mu.Lock()
+	p.closeDelay = d
+	p.mu.Unlock()
+}
+
+// Released reports whether a Close call has returned.
+func (p *Pipe) Released() bool {
+	p.mu.Lock()
+	defer p.mu.Unlock()
+	return p.closeDone > 0
 }
 
 // FailClose makes Close report err (a device that is already gone when it gets closed).
